@@ -14,7 +14,8 @@ Vocabulary (all defined in `FR/Proofs/ErrSys.lean`):
 * `s.prologue` — the state in which a *known* command is checked and run: `_cleanup` of the sockets closed meanwhile
   has run and the clock has been read (`srv.time` refreshed, one clock hint consumed).  The clock of course
   advances; `prologue_only_clock` says that nothing else does when no socket was closed.
-* `ErrAnswered mode c fields s` — the request is answered with an error: unknown command, wrong arity, or (run at
+* `ErrAnswered mode c fields s` — the request is answered with an error: unknown command, wrong arity,
+  (P)SUBSCRIBE / (P)UNSUBSCRIBE while a MULTI is open ("Command not allowed inside a transaction"), or (run at
   once) `_run_command` refuses it in subscriber mode (`Sys.refuses`: before the arguments are looked at) / the generic
   runner ends on an error path (`failed`) / `_run_command` of a special command returns `.err`.
   `out_error_iff_errAnswered` relates it to "the reply list grows by exactly one error".
@@ -36,7 +37,7 @@ clock refresh —, `s.prologue` for a known one):
 * every database is purge-equal, `srv.subs`, `srv.psubs`, `srv.scripts` and all other server fields are identical,
 * every OTHER connection record is identical (`tx`, `txFailed`, `watches`, `watchNotified`, `parked`, `buf`, …),
 * the record of `c` is unchanged (`f = id`), or gets `txFailed := true` — exactly when the error (unknown command,
-  wrong arity) happens while a MULTI is open —, or gets `dead := true` — only when the `crashed` marker of the replay
+  wrong arity, (P)SUBSCRIBE / (P)UNSUBSCRIBE refused) happens while a MULTI is open —, or gets `dead := true` — only when the `crashed` marker of the replay
   is set (never after `Sys.beginEvent`),
 * exactly one reply, an error, is appended for `c`. -/
 theorem error_answer_changes_nothing (mode : Mode) (c : Nat) (nameB : Bytes) (args : List Bytes) (s : Sys)
@@ -110,7 +111,8 @@ instance (priority := high) decErrAnswered (mode : Mode) (c : Nat) (fields : Lis
       if ha : (!sig.checkArity args.length) = true then
         isTrue (by unfold ErrAnswered; simp only [h]; rw [if_pos ha]; trivial)
       else if hq : ((s.conn c).tx.isSome && !SigTable.notQueued.contains sig.name) = true then
-        isFalse (by unfold ErrAnswered; simp only [h]; rw [if_neg ha, if_pos hq]; exact id)
+        decidable_of_iff (SigTable.notInMulti.contains sig.name = true)
+          (by unfold ErrAnswered; simp only [h]; rw [if_neg ha, if_pos hq])
       else
         match hr : Cmd.regular sig.name with
         | some body =>
@@ -176,6 +178,15 @@ def exSysMulti : Sys :=
 
 example : ((processCommand {} 1 [strBytes "nosuch"] exSysMulti).2.conn 1).txFailed = true ∧
     (exSysMulti.conn 1).txFailed = false := by decide +kernel
+
+/-- SUBSCRIBE inside MULTI is answered with an error (refused, not queued): `ErrAnswered`, the reply, `txFailed`,
+the queue as it was -/
+example : ErrAnswered {} 1 [strBytes "subscribe", [120]] exSysMulti ∧
+    (processCommand {} 1 [strBytes "subscribe", [120]] exSysMulti).2.out.map
+      (fun p => (p.1, match p.2 with | .err m => some m | _ => none)) =
+      [(1, some (strBytes Msgs.COMMAND_IN_MULTI_MSG))] ∧
+    ((processCommand {} 1 [strBytes "subscribe", [120]] exSysMulti).2.conn 1).txFailed = true ∧
+    ((processCommand {} 1 [strBytes "subscribe", [120]] exSysMulti).2.conn 1).tx = some [] := by decide +kernel
 
 /-! ## 2. EXEC, its inner commands, script calls -/
 
